@@ -3,7 +3,7 @@ import itertools
 from .. import cfg as C
 from .. import hirx as H
 from ..flow import ExprBuilder, mentions_field, mentions_call, is_call, is_field, walk, show, cond_switches, \
-    guarded, seed_after_call, Sccp, I, V, X, strip, value_set
+    guarded, seed_after_call, Sccp, I, V, X, strip, value_set, ret_set
 from ..graph import field_rw, field_rw_deep, enum_table, discr_switches
 from ..facts import op_const, op_place, fields_of_place, place_key
 from .. import wire as W
@@ -408,12 +408,21 @@ def top_rule(ctx, r):
             r.ok(lbl, "ignore verdict ⇒ returned", fn=f)
     # the three stages are consulted exactly when they hold rules
     har = facts.fn(D + "::Ignore::has_any_ignore_rules")
-    env_h = H.LetEnv(har.hir)
-    tail_h = H.tail_expr(har.hir)
-    at_h = ["opts.ignore", "opts.git_global", "opts.git_ignore", "opts.git_exclude",
-            "self.0.custom_ignore_filenames.is_empty()", "self.0.explicit_ignores.is_empty()"]
-    okh, det = H.equivalent(tail_h, at_h, lambda v: v[at_h[0]] or v[at_h[1]] or v[at_h[2]] or v[at_h[3]] or (not v[at_h[4]]) or (not v[at_h[5]]),
-                            env=env_h)
+    # value table (64 rows): four options, and whether the two lists are empty
+    wrong_h = []
+    for row, sx in table(facts, har, fields={(OPTS, n_): [I(0), I(1)] for n_ in ("ignore", "git_global", "git_ignore", "git_exclude")},
+                         calls={"Vec::is_empty": [I(0), I(1)]}):
+        # (both lists share one is_empty model: the formula is symmetric in them; their individual use is checked by name)
+        opts_on = any(row[("field", (OPTS, n_))][1] for n_ in ("ignore", "git_global", "git_ignore", "git_exclude"))
+        empty = row[("call", "Vec::is_empty")][1]
+        want = I(int(bool(opts_on or not empty)))
+        if ret_set(sx) != {want}:
+            wrong_h.append("%s lists empty=%d ⇒ %s" % ({n_: row[("field", (OPTS, n_))][1] for n_ in ("ignore", "git_global", "git_ignore", "git_exclude")},
+                                                         empty, sorted(map(str, ret_set(sx)))))
+    import json as _json
+    both_lists = all('"%s"' % n_ in _json.dumps(har.mir) for n_ in ("custom_ignore_filenames", "explicit_ignores"))
+    okh = not wrong_h and both_lists
+    det = wrong_h[0] if wrong_h else ("32 rows" if both_lists else "one of the two lists is not consulted")
     if okh:
         r.ok("any-rules", "has_any_ignore_rules ≡ any option on ∨ custom names ∨ explicit ignores (%s)" % det, fn=har)
     else:
@@ -453,7 +462,6 @@ def top_rule(ctx, r):
     ebo = ExprBuilder(o)
     # value table over (gitignore verdict, num_whitelists, is_dir): the override's answer is the gitignore verdict inverted;
     # nothing matched becomes Ignore exactly when whitelist globs exist and the entry is not a directory
-    from ..flow import ret_set
     wrong_inv, wrong_unm = [], []
     gi_calls = o.calls_to(GI_MATCHED)
     isdir_arg = [i for i, l_ in enumerate(o.locals) if l_.get("name") == "is_dir" and 0 < i <= o.argc]
@@ -719,8 +727,10 @@ def opts_rule(ctx, r):
             continue
         seen.add(lit)
         opt = PAIR[lit]
-        sw = cond_switches(f, lambda e: is_field(strip(e), OPTS, opt), eb)
-        if not sw or guarded(f, [c.bb], sw, True):
+        # by value: with the option off the file is not looked for (the flag may be tested in place or hoisted into a local)
+        sx_off = Sccp(f, field_model=lambda o_, n_, opt=opt: I(0) if (o_ == OPTS and n_ == opt) else None).run([(0, {})])
+        import json as _json
+        if ('"%s"' % opt) not in _json.dumps(f.mir) or c.bb in sx_off.exec_blocks:
             r.bad("child|" + lit, "%s is read at %s without the opts.%s test" % (lit, c.loc, opt), fn=f, loc=c.loc,
                   construct=opt)
         else:
@@ -1108,42 +1118,31 @@ def run(ctx):
         hg_ops = [(bb, st["rv"]["ops"][st["rv"]["fields"].index("has_git")]) for bb, j, st in acp.stmts()
                   if st["k"] == "assign" and st["rv"]["k"] == "agg" and str(st["rv"].get("adt", "")).endswith("IgnoreInner") and
                   "has_git" in st["rv"].get("fields", [])]
-        eba_ = ExprBuilder(acp)
-        fsw = {n: cond_switches(acp, lambda e, n=n: is_field(strip(e), OPTS, n), eba_) for n in ("require_git", "git_ignore", "git_exclude")}
-        if not hg_ops or not all(fsw.values()):
+        import json as _json
+        reads_all = all('"%s"' % n in _json.dumps(acp.mir) or any('"%s"' % n in _json.dumps(g_.mir) for g_ in facts.closures_of(acp.path))
+                        for n in ("require_git", "git_ignore", "git_exclude"))
+        if not hg_ops or not reads_all:
             r.bad("add_child_path|has_git", "anchor-missing: IgnoreInner::has_git / the option tests of add_child_path", fn=acp)
         else:
             wrong = []
+            from ..flow import combinator_model as _cm, operand_at as _oat
             for rq, gi, ge in itertools.product([0, 1], repeat=3):
-                removed = set()
-                for n, v_ in (("require_git", rq), ("git_ignore", gi), ("git_exclude", ge)):
-                    removed |= {(x[2] if v_ else x[1]) for x in fsw[n]}
+                def fm(owner, name, rq=rq, gi=gi, ge=ge):
+                    if owner == OPTS:
+                        return {"require_git": I(rq), "git_ignore": I(gi), "git_exclude": I(ge)}.get(name)
+                    return None
 
-                def model(call, argv):
-                    if call.path.endswith("Option::map") and argv and argv[0] is not None and argv[0][0] == "v" and argv[0][1] == "Some":
-                        # the closure's constant answer, if it has one (`.map(|_| true)`)
-                        payload = None
-                        for x in walk(eba_.operand(call.args[1])):
-                            if x.k == "closure" and x[1] in facts.fns:
-                                sc = Sccp(facts.fns[x[1]]).run([(0, {})])
-                                vs = {y for v2 in sc.ret_values.values() for y in value_set(v2)}
-                                if len(vs) == 1 and None not in vs:
-                                    payload = next(iter(vs))
-                        return V("Some", payload)
-                    if call.path.endswith("Option::map") and argv and argv[0] is not None and argv[0][0] == "v" and argv[0][1] == "None":
-                        return V("None", None)
-                    if call.path.endswith("Result::ok") and argv and argv[0] is not None and argv[0][0] == "v" and argv[0][1] == "Ok":
-                        return V("Some", None)
+                def inner(call, argv):
                     if call.path.endswith("Path::metadata"):
                         return V("Ok", None)
-                    if call.path.endswith("Option::is_some") and argv and argv[0] is not None and argv[0][0] == "v":
-                        return I(1 if argv[0][1] == "Some" else 0)
-                    if call.path.endswith("Option::unwrap_or") and argv and argv[0] is not None and argv[0][0] == "v":
-                        return argv[0][2] if argv[0][1] == "Some" else argv[1]
+                    if call.path.endswith("Path::exists"):
+                        return I(1)
                     return None
-                sx = Sccp(acp, call_model=model, removed_edges=removed).run([(0, {})])
+                sx = Sccp(acp, call_model=_cm(facts, inner, field_model=fm), field_model=fm).run([(0, {})])
                 bb, op = hg_ops[0]
-                val = sx._operand(sx.env_in.get(bb, {}), op) if bb in sx.exec_blocks else None
+                st_ = [st for b2, j2, st in acp.stmts() if b2 == bb and st["k"] == "assign" and st["rv"]["k"] == "agg" and
+                       "has_git" in st["rv"].get("fields", [])][0]
+                val = _oat(sx, bb, st_, op)
                 want = I(1 if (rq and (gi or ge)) else 0)
                 if val != want:
                     wrong.append("require_git=%d git_ignore=%d git_exclude=%d ⇒ %s" % (rq, gi, ge, val))
